@@ -78,12 +78,51 @@ fn generated(seed: u64, k: u64) -> Sample {
     Sample { name: format!("generated-history-{}", k), bytes: b.bytes, password: vec![] }
 }
 
+/// A file laid out the way linearized files are: `startxref` names a cross-reference section near the start of the file whose
+/// /Prev points FORWARD to the main section near the end (append-style histories only ever point backwards).
+fn forward_prev(seed: u64, k: u64) -> Sample {
+    let mut r = Rng::derive(seed, 1701, k);
+    let mut out: Vec<u8> = b"%PDF-1.4\n%\xe2\xe3\xcf\xd3\n".to_vec();
+    let mut off = [0usize; 6];
+    let content = format!("BT /F1 {} Tf ({}) Tj ET", 8 + r.below(20), k);
+    let put = |out: &mut Vec<u8>, off: &mut [usize; 6], n: usize, body: String| { off[n] = out.len(); out.extend_from_slice(format!("{} 0 obj\n{}\nendobj\n", n, body).as_bytes()); };
+    put(&mut out, &mut off, 3, format!("<< /Type /Page /Parent 2 0 R /MediaBox [0 0 {} 792] /Contents 4 0 R /Resources << >> >>", 500 + r.below(200)));
+    put(&mut out, &mut off, 4, format!("<< /Length {} >>\nstream\n{}\nendstream", content.len(), content));
+    put(&mut out, &mut off, 5, format!("<< /Marker {} /Text (forward) >>", r.below(100000)));
+    let a_at = out.len();
+    let a_patch; // where the /Prev value goes (fixed width)
+    {
+        let mut t = String::from("xref\n3 3\n");
+        for n in 3..6 { t.push_str(&format!("{:010} 00000 n \n", off[n])); }
+        t.push_str("trailer\n<< /Size 6 /Root 1 0 R /Prev ");
+        out.extend_from_slice(t.as_bytes());
+        a_patch = out.len();
+        out.extend_from_slice(b"0000000000 >>\n");
+    }
+    // distance between the two sections: anything from a few bytes to beyond the longest prefix
+    let pad = match r.below(4) { 0 => r.below(40), 1 => r.below(2000), _ => r.below(800) } as usize;
+    out.extend_from_slice(b"%");
+    out.extend(std::iter::repeat(b'p').take(pad));
+    out.extend_from_slice(b"\n");
+    put(&mut out, &mut off, 1, "<< /Type /Catalog /Pages 2 0 R >>".to_string());
+    put(&mut out, &mut off, 2, "<< /Type /Pages /Kids [3 0 R] /Count 1 >>".to_string());
+    let b_at = out.len();
+    let mut t = String::from("xref\n0 3\n0000000000 65535 f \n");
+    for n in 1..3 { t.push_str(&format!("{:010} 00000 n \n", off[n])); }
+    t.push_str("trailer\n<< /Size 3 >>\n");
+    out.extend_from_slice(t.as_bytes());
+    out[a_patch..a_patch + 10].copy_from_slice(format!("{:010}", b_at).as_bytes());
+    out.extend_from_slice(format!("startxref\n{}\n%%EOF\n", a_at).as_bytes());
+    Sample { name: format!("generated-forward-prev-{}-distance-{}", k, b_at - a_at), bytes: out, password: vec![] }
+}
+
 pub fn run(run: &Run) {
-    run.rule("every loadable corpus file and generated multi-section files (classic/stream xref, /Prev chains, object streams) x prefixes of every length 1..1019 (files up to 30 KB quick / 200 KB thorough; {1..16, 255, 256, 512, 1000, 1018, 1019} + random lengths otherwise) x contents {zeros, 0xFF, random, PDF-token-like text, mail-header-like, header look-alikes without the dash} never containing %PDF-; the prefixed file must load and give identical trailer, version, resolve(n) for all n (streams as dictionary + raw data), page boxes/ops and scan() items. distinct_nontrivial = distinct (file, prefix) pairs with prefix length > 0");
+    run.rule("every loadable corpus file and generated multi-section files (classic/stream xref, /Prev chains, object streams; also files laid out like linearized ones: startxref names a section near the start whose /Prev points forward, at distances from a few bytes to 2 KB) x prefixes of every length 1..1019 (files up to 30 KB quick / 200 KB thorough; {1..16, 255, 256, 512, 1000, 1018, 1019} + random lengths otherwise) x contents {zeros, 0xFF, random, PDF-token-like text, mail-header-like, header look-alikes without the dash} never containing %PDF-; the prefixed file must load and give identical trailer, version, resolve(n) for all n (streams as dictionary + raw data), page boxes/ops and scan() items. distinct_nontrivial = distinct (file, prefix) pairs with prefix length > 0");
     run.assume("baseline = the same file without prefix read by the same library build; files whose unprefixed baseline does not load are skipped and listed");
     let mut samples = valid_files();
     let ngen = run.n(12, 400);
     for k in 0..ngen { samples.push(generated(run.seed, k)); }
+    for k in 0..run.n(8, 60) { samples.push(forward_prev(run.seed, k)); }
     let cfg = Cfg { cached: false, tolerant: false };
     // baselines
     let mut work: Vec<(usize, usize, u64)> = Vec::new(); // (sample, len, kind)
